@@ -118,6 +118,27 @@ CLAIMED.update({
                      'reproduces the right bytes.', ref='5 (C15)'),
 })
 
+CLAIMED.update({
+    'C07': dict(cat='other', tech='path-sensitive abstract exploration of the decompressor tasks (error-code chain), tabulation of parse() end-of-input results, guard cuts in work(), must-pass/never-return rules on fail*/bailout/halt/cleanup, call-closure deny-list on the abnormal exit path',
+                text='Decides that every DETECTED error ends in a diagnostic and exit status 1 with the partial output '
+                     'removed: results of retrieve()/emit()/parse() travel unchanged to do_reorder()/do_parse(), where every '
+                     'value but OK/MORE/FINISH reaches failf(err2str(code)); truncation inside a stream (incl. inside the '
+                     'zero padding) is ERR_EOF; a first header other than BZh1..BZh9 fails unless -f with stdout; fail* '
+                     'never return and reach bailout(); bailout() = cleanup() + _exit(1) on the main thread, SIGUSR1 from '
+                     'other threads, which halt() turns into bailout(); cleanup() unlinks the partial output; nothing on '
+                     'the abnormal exit path takes the stderr lock (a failed thread dies holding it). Does NOT decide that '
+                     'every malformed stream is detected, nor absence of crashes/hangs in the codec.', ref='5 (C07)'),
+    'C10': dict(cat='other', tech='path-sensitive abstract exploration over position-comparison facts (LT/EQ/GT relation sets) and candidate bookkeeping flags; who-writes and call-closure rules',
+                text='Decides that output and failure are determined only where the sequential parser\'s position is '
+                     'matched: order_q is fed only by do_parse() with the parser\'s own position; do_reorder() takes the '
+                     'order head, writes and fails only for a block not behind it, discards (silently, freed) exactly the '
+                     'blocks behind it; can_reorder() is tabulated against its specification; do_scan() creates candidates '
+                     'only strictly ahead of the parser; do_parse() adopts a candidate only at exactly its position and '
+                     'skips to its end only then; do_retrieve() moves the parser / returns the token only as own job or '
+                     'adopted candidate; speculative tasks raise no diagnostic for candidates. Does not decide that equal '
+                     'positions imply equal bit offsets (detach() arithmetic).', ref='5 (C10)'),
+})
+
 NA = {
     'C01': 'round-trip equality is a numerical fact about RLE/BWT/MTF/Huffman and its inverse over all byte strings; '
            'no sound static argument in reach bounds it (DESIGN.md section 6); its shape-level fragments are decided '
